@@ -981,7 +981,7 @@ def site_findings(ctx, site, section, need, pyrex_tree):
         root = scope_root(fn, node)
         if root[0] != 'param':
             out.append(('scope', "%s; %s passes outer_module_scope=%s, which is not derived from the scope the conversion is requested for (a parameter of %s): "
-                        "the helper inherits the directives of the module that DECLARES the type, not of the module being compiled" % (what, site.func, root[1], fn.name)))
+                        "the helper inherits the directives (and resolves its names in the scope) of the module that DECLARES the type, not of the module being compiled" % (what, site.func, root[1], fn.name)))
     if 'compiler_directives' in kw:
         cd = kw['compiler_directives']
         if isinstance(cd, dict) and not cd.get(Q.OPEN):
